@@ -142,9 +142,9 @@ theorem build_valid (L : Layout) (cached : Bool) (pages : List (PageSpec A R C))
   obtain ⟨ext, e1, e2⟩ := sh.ids_lt
   -- pending values of the new state
   have hst : ∀ j, chLookup d'.st.changes j =
-      if j = (prep d).xid then some (params.xrefVal, 0) else chLookup (prep d).st2.changes j := by
+      if j = (prep d).xid then some (params.xrefVal i, 0) else chLookup (prep d).st2.changes j := by
     obtain ⟨w, rows, _, _, hst, _⟩ := save_ok_spec params L d d' i hs
-    intro j; rw [hst]; simp [commit, chLookup_chInsert]
+    intro j; rw [hst]; simp [commit, chLookup_chInsert, params]
   refine ⟨hstart, ⟨s, by rw [hstart, Nat.zero_add] at s1; exact s1, s2, s3, by rw [s5, hpr.tr_prev], by rw [s4, htr]⟩,
     by have := sh.rows_len; omega, by rw [hsz, pf.size_eq]; exact hmax, ?_, ?_, ?_⟩
   · intro o ho
